@@ -68,10 +68,13 @@ structure TreeInv (m₀ : Members) (sh : Shared) (ts : List Thread) : Prop where
   uncond : ∀ (i : Nat) (t : Thread), ts[i]? = some t → t.op.unconditional = true
   /-- the members are the logged writes applied in order -/
   members : sh.members = (sh.log.map (·.2)).foldl effect m₀
-  /-- whoever holds `index.lock` read the index when taking it and nobody has written since -/
-  holder : ∀ (i : Nat) (t : Thread) (seen : Members), ts[i]? = some t → t.pc = .holding seen → sh.lock = some i ∧ seen = sh.members
+  /-- whoever holds `index.lock` — before or after writing its working-tree file — read the index
+      when taking it and nobody has committed since -/
+  holder : ∀ (i : Nat) (t : Thread) (seen : Members), ts[i]? = some t →
+    (t.pc = .holding seen ∨ t.pc = .written seen) → sh.lock = some i ∧ seen = sh.members
   /-- the lock is held by a thread that is in its write section -/
-  lockHeld : ∀ (i : Nat), sh.lock = some i → ∃ (t : Thread) (seen : Members), ts[i]? = some t ∧ t.pc = .holding seen
+  lockHeld : ∀ (i : Nat), sh.lock = some i →
+    ∃ (t : Thread) (seen : Members), ts[i]? = some t ∧ (t.pc = .holding seen ∨ t.pc = .written seen)
   /-- the log lists exactly the threads that finished ok, each once, with their operation -/
   logNodup : (sh.log.map (·.1)).Nodup
   logged : ∀ (i : Nat) (t : Thread), ts[i]? = some t → (t.pc = .done .ok ↔ (i, t.op) ∈ sh.log)
@@ -116,19 +119,41 @@ theorem tree_processes_step (uidOf : String → Option String) (m₀ : Members) 
       · intro j hj
         have e : i = j := by simpa using hj
         subst e
-        exact ⟨⟨.put n tok none none, .holding sh.members⟩, sh.members, by simp [hget], rfl⟩
+        exact ⟨⟨.put n tok none none, .holding sh.members⟩, sh.members, by simp [hget], Or.inl rfl⟩
       · grind
       · grind
       · grind
       · grind
   | holding seen =>
     have hstep : stepThread uidOf .tree .processes i sh ⟨.put n tok none none, .holding seen⟩ =
+        ({ sh with wt := effect sh.wt (.put n tok none none) },
+         ⟨.put n tok none none, .written seen⟩) := by
+      simp [stepThread]
+    rw [hstep]
+    obtain ⟨hlock, hseen⟩ := h3 i _ seen hi (Or.inl rfl)
+    refine ⟨?_, ?_, ?_, ?_, ?_, ?_, ?_, ?_⟩
+    · grind
+    · grind
+    · grind
+    · intro j hj
+      have e : i = j := by
+        have : sh.lock = some j := hj
+        rw [hlock] at this
+        simpa using this
+      subst e
+      exact ⟨⟨.put n tok none none, .written seen⟩, seen, by simp [hget], Or.inr rfl⟩
+    · grind
+    · grind
+    · grind
+    · grind
+  | written seen =>
+    have hstep : stepThread uidOf .tree .processes i sh ⟨.put n tok none none, .written seen⟩ =
         ({ sh with members := effect seen (.put n tok none none), lock := none,
                    log := sh.log ++ [(i, .put n tok none none)] },
          ⟨.put n tok none none, .done .ok⟩) := by
       simp [stepThread]
     rw [hstep]
-    obtain ⟨hlock, hseen⟩ := h3 i _ seen hi rfl
+    obtain ⟨hlock, hseen⟩ := h3 i _ seen hi (Or.inr rfl)
     have hnot : ∀ o, (i, o) ∉ sh.log := by
       intro o ho
       obtain ⟨t', ht', hop⟩ := h7 _ ho
@@ -173,7 +198,7 @@ theorem tree_initial (m₀ : Members) (ops : List Op) (hu : ∀ op ∈ ops, op.u
     exact hu _ (hth i t ht).2
   · intro i t seen ht hpc
     rw [(hth i t ht).1] at hpc
-    cases hpc
+    rcases hpc with hpc | hpc <;> cases hpc
   · intro i t ht
     rw [(hth i t ht).1]
     simp
@@ -242,11 +267,12 @@ theorem TreeInv.ok_logged_once {m₀ : Members} {sh : Shared} {ts : List Thread}
   have h2 := List.count_pos_iff.mpr hm
   omega
 
-/-- the statement is not vacuous: A takes the lock, B is refused, A writes, C writes -/
+/-- the statement is not vacuous: A takes the lock, B is refused, A writes its
+    working-tree file and commits, C does the same -/
 example :
     let ops := [Op.put "a.ics" "A" none none, Op.put "a.ics" "B" none none, Op.put "c.ics" "C" none none]
     let out := runSched (fun _ => none) .tree .processes { members := [("a.ics", "e0")] } (ops.map fun op => { op := op })
-      [0, 1, 0, 1, 2, 0, 2, 2]
+      [0, 1, 0, 1, 2, 0, 0, 2, 2, 2]
     results out.2 = [some .ok, some .locked, some .ok] ∧
       out.1.log.map (·.1) = [0, 2] ∧
       out.1.members = (effect (effect [("a.ics", "e0")] (.put "a.ics" "A" none none)) (.put "c.ics" "C" none none)) := by
